@@ -128,4 +128,8 @@ class LatticeInput(CellModifierInput):
         return ret
 
     def _update_cell_values(self):
-        pass
+        # the value may live in a node that is not the one of this cell's tree
+        # (set on a cell without LAT, or pushed from the data block)
+        if self._lattice is not None and self._tree["data"][0] is not self._lattice:
+            self._tree["data"].nodes.pop()
+            self._tree["data"].append(self._lattice)
